@@ -464,6 +464,14 @@ class Master(loader.Loader):
                 _LOGGER.info('Unscheduling: %s - %s', servername, app)
                 self.backend.delete(os.path.join(placement_node, app))
 
+        # Placement left under a server that is not part of the cell (any
+        # more) is stale as well, and is removed in the same first loop.
+        for servername in set(self.backend.list(z.PLACEMENT)) - set(current):
+            placement_node = z.path.placement(servername)
+            for app in self.backend.list(placement_node):
+                _LOGGER.info('Unscheduling: %s - %s', servername, app)
+                self.backend.delete(os.path.join(placement_node, app))
+
         for servername, server in self.cell.members().items():
             placement_node = z.path.placement(servername)
             correct = set(server.apps.keys())
